@@ -137,6 +137,9 @@ class Engine:
         self.covers = {}          # label -> count of paths reaching it
         self.in_path = False
         self.decided = {}
+        self.order_mode = 'all'       # 'all' | 'insertion' | 'reverse' | 'scoped'
+        self.order_all_in = set()
+        self.order_fallback = 'insertion'
 
     # -- symbolic inputs ---------------------------------------------------------------------
     def fresh_int(self, name, lo=None, hi=None):
